@@ -88,5 +88,97 @@ CHECKS = [
              'differences), vf/refop.py, scipy.constants. The 100*tol '
              'agreement bound for fields/data/gradients is calibrated; '
              'automatic gridding and extract_1d are not exercised here.'},
+    {'id': 'C09', 'ref': 'DESIGN.md section 3 C09',
+     'technique': 'runtime monitoring at the boundaries of get_receiver / '
+                  'get_source_field / get_magnetic_field / '
+                  'Rx*._adjoint_source / solve: every sampled value and every '
+                  'point-source vector compared with an independent reference '
+                  '(trilinear weights on staggered edge/face grids, own '
+                  'rotation, slice-based curl + hand-written adjoint, '
+                  'documented Faraday relation); NaN policy over labelled '
+                  'boundary classes; reciprocity of solved responses against '
+                  'the bound implied by the solver tolerance; '
+                  'NUMBA_BOUNDSCHECK build (thorough)',
+     'text': 'On thousands of random stretched grids, fields, models, '
+             'positions (also exactly on nodes, cell centres, inner limit '
+             'planes) and orientations, linear receiver sampling, the point-'
+             'source vectors and the adjoint-source mapping agreed with an '
+             'independent transpose/Faraday reference to rounding; NaN exactly '
+             'outside / in the outermost cells; reciprocity within the '
+             'solver-tolerance bound on every converged pair.',
+     'note': 'Trusted: reference model in vf/c09.py (self-checked against '
+             'discretize edge_curl), scipy.constants. emg3d\'s documented '
+             '1e-10 component cut-off in get_receiver granted as slack. '
+             'Magnetic clauses mu_r=1; magnetic reciprocity points half a '
+             'cell further inside (otherwise the solve does not converge).'},
+    {'id': 'C10', 'ref': 'DESIGN.md section 3 C10',
+     'technique': 'client-boundary monitor on get_source_field / electrodes '
+                  'conversions with an independent geometric reference model '
+                  '(vector sums, slab-clipping support oracle, trigonometric '
+                  'and cross-product formulas); seeded hostile inputs plus '
+                  'complete lattice enumeration on a small grid',
+     'text': 'Every observed source vector summed per component to strength x '
+             '(last - first electrode) (unit direction for points, 0 for '
+             'closed loops), field = -s mu0 vec to 16 eps, support only on '
+             'cells touched by the wire; conversions round-trip; magnetic '
+             'loop closed/planar/square/right-handed with area = length. One '
+             'input class (segment inside an upper boundary plane) is a '
+             'recorded known finding.',
+     'note': 'Trusted: reference formulas in vf/c10.py, scipy.constants. '
+             'Weight distribution inside touched cells, TxMagneticPoint '
+             '(C09) and complex strength in real-valued calls not judged.'},
+    {'id': 'C15', 'ref': 'DESIGN.md section 3 C15',
+     'technique': 'runtime monitoring: reference-model oracle (independent '
+                  'overlap-length volume-average operator) at the client '
+                  'boundary of maps.interpolate / Model.interpolate_to_grid / '
+                  'maps._interp_volume_average_adj on generated and '
+                  'exhaustively enumerated lattice grid pairs; '
+                  'NUMBA_BOUNDSCHECK build (thorough)',
+     'text': 'On every generated pair of tensor grids (nine relations per '
+             'direction, 1-12 cells, eight decades; all 1-D integer-lattice '
+             'pairs enumerated) the real volume average equalled the '
+             'independent operator in linear and log mode to a derived '
+             'rounding bound, conserved the integral, stayed in range, was '
+             'the identity on equal grids, nearest-filled outside, and the '
+             'gradient\'s adjoint routine was its exact transpose.',
+     'note': 'Trusted: w1d/RefAvg in vf/c15.py (~40 lines), numpy. Grids that '
+             'TensorMesh.__eq__ (allclose) regards as equal are excluded from '
+             'the Model route; a 4-ulp sliver envelope is granted where nodes '
+             'of the two grids coincide only up to rounding.'},
+    {'id': 'C16', 'ref': 'DESIGN.md section 3 C16',
+     'technique': 'runtime contract (recording wrapper + postcondition) on '
+                  'meshes.origin_and_widths / construct_mesh judged by an '
+                  'independent re-implementation of the documented gridding '
+                  'rules, under seeded random direction calls, construct_mesh '
+                  'calls in all argument formats and Simulation-driven '
+                  'estimate_gridding_opts',
+     'text': 'Every mesh that automatic gridding returned in the observed '
+             'runs had a permitted cell count, positive widths, covered the '
+             'survey domain plus the documented buffer, kept generated widths '
+             'within max(stretching) (sea-surface allowance included), '
+             'honoured centre / vector / sea-surface clauses; every failure '
+             'was a RuntimeError.',
+     'note': 'Trusted: docstrings of construct_mesh/origin_and_widths as '
+             'specification and their re-implementation in vf/c16.py; '
+             'RuntimeError accepted without proving that no mesh exists; '
+             'Laplace convention pinned.'},
+    {'id': 'C20', 'ref': 'DESIGN.md section 3 C20',
+     'technique': 'runtime monitor on emg3d.Fourier (constructor, setters, '
+                  'interpolate, freq2time) and on empymod.model.tem with '
+                  'independent reference models (own not-a-knot log-f cubic '
+                  'spline with Lebesgue-scaled tolerance, own PCHIP, '
+                  'check_time/tem as reference transform, error bound from '
+                  'the extracted linear operator); seeded configurations and '
+                  'setter histories',
+     'text': 'On every sampled configuration the three frequency groups were '
+             'a disjoint cover defined by fmin/fmax, computed frequencies lay '
+             'in band, the filled spectrum equalled the independent '
+             'spline/PCHIP fill (pass-through, zeros above fmax, constant '
+             'real / monotone-to-zero imaginary below fmin) and freq2time '
+             'equalled the reference transform of that fill within a derived '
+             'bound.',
+     'note': 'Trusted: empymod.utils.check_time / empymod.model.tem as the '
+             'reference transform, reference models in vf/c20.py (guarded '
+             'against scipy). Spectra/times/bands sampled.'},
 ]
 NOT_APPLICABLE = []
